@@ -11,7 +11,7 @@ from __future__ import annotations
 import itertools
 import random
 
-from .batcher_drv import drain, n_calls
+from .batcher_drv import drain, n_calls, EMPTY_KEY
 
 
 class Mirror:
@@ -276,6 +276,8 @@ def rand_program(rnd, cfg, n_events, weights, keys=3, args=3, max_calls=10, dist
         r = rnd.random()
         if r < 0.45:
             return [a, None]                      # default key str(arg)
+        if r < 0.55:
+            return [a, EMPTY_KEY]                 # explicit key '' (falsy; shared by all args that use it)
         return [a, rnd.randrange(keys)]           # explicit key (may equal another arg's default key)
 
     for _ in range(n_events):
